@@ -49,10 +49,13 @@ def install():
 
     orig_schedule = scheduler.Cell.schedule
 
-    def schedule(self):
+    # every wrapper passes extra positional / keyword arguments through
+    # untouched: a signature that grows an optional parameter in the code
+    # under test must not make the observer raise
+    def schedule(self, *args, **kwargs):
         hook = _CYCLE_HOOK
-        if hook is None:
-            return orig_schedule(self)
+        if hook is None or args or kwargs:
+            return orig_schedule(self, *args, **kwargs)
         return hook(self, orig_schedule)
 
     orig_find = scheduler.Cell._find_placements
@@ -64,54 +67,54 @@ def install():
     orig_server_remove = scheduler.Server.remove
     orig_feasible = scheduler.PlacementFeasibilityTracker.feasible
 
-    def feasible(self, app):
-        rc = orig_feasible(self, app)
+    def feasible(self, app, *args, **kwargs):
+        rc = orig_feasible(self, app, *args, **kwargs)
         rec = _REC
         if rec is not None and not rc:
             rec.events.append(('infeasible', app.name, None, 'tracker'))
         return rc
 
-    def schedule_alloc(self, allocation, servers):
+    def schedule_alloc(self, allocation, *args, **kwargs):
         rec = _REC
         if rec is not None:
             rec.cur_label = allocation.label
-        return orig_sched_alloc(self, allocation, servers)
+        return orig_sched_alloc(self, allocation, *args, **kwargs)
 
-    def _record_rank_and_util(self, queue):
+    def _record_rank_and_util(self, queue, *args, **kwargs):
         rec = _REC
         if rec is not None:
             queue = list(queue)
             rec.entries.append((rec.cur_label, [
                 (item[0], float(item[1]), float(item[2]), item[3], item[4],
                  item[-1].name, item[-1].server) for item in queue]))
-        return orig_record(self, queue)
+        return orig_record(self, queue, *args, **kwargs)
 
-    def _find_placements(self, queue, servers):
+    def _find_placements(self, queue, *args, **kwargs):
         rec = _REC
         if rec is None:
-            return orig_find(self, queue, servers)
+            return orig_find(self, queue, *args, **kwargs)
         rec.queues.append((rec.cur_label, [app.name for app in queue]))
         rec.in_find += 1
         try:
-            return orig_find(self, queue, servers)
+            return orig_find(self, queue, *args, **kwargs)
         finally:
             rec.in_find -= 1
 
-    def bucket_put(self, app):
+    def bucket_put(self, app, *args, **kwargs):
         rec = _REC
         if rec is None:
-            return orig_bucket_put(self, app)
+            return orig_bucket_put(self, app, *args, **kwargs)
         rec.tree_depth += 1
         try:
-            return orig_bucket_put(self, app)
+            return orig_bucket_put(self, app, *args, **kwargs)
         finally:
             rec.tree_depth -= 1
 
-    def server_put(self, app):
+    def server_put(self, app, *args, **kwargs):
         rec = _REC
         if rec is None:
-            return orig_server_put(self, app)
-        rc = orig_server_put(self, app)
+            return orig_server_put(self, app, *args, **kwargs)
+        rc = orig_server_put(self, app, *args, **kwargs)
         if rc:
             if rec.in_restore:
                 prov = 'restore'
@@ -124,22 +127,22 @@ def install():
             rec.events.append(('put', app.name, self.name, prov))
         return rc
 
-    def server_restore(self, app, placement_expiry=None):
+    def server_restore(self, app, *args, **kwargs):
         rec = _REC
         if rec is None:
-            return orig_server_restore(self, app, placement_expiry)
+            return orig_server_restore(self, app, *args, **kwargs)
         rec.in_restore += 1
         try:
-            return orig_server_restore(self, app, placement_expiry)
+            return orig_server_restore(self, app, *args, **kwargs)
         finally:
             rec.in_restore -= 1
 
-    def server_remove(self, app_name):
+    def server_remove(self, app_name, *args, **kwargs):
         rec = _REC
         if rec is not None:
             rec.events.append(('remove', app_name, self.name,
                                'find' if rec.in_find else 'pre'))
-        return orig_server_remove(self, app_name)
+        return orig_server_remove(self, app_name, *args, **kwargs)
 
     scheduler.Cell.schedule = schedule
     scheduler.Cell.schedule_alloc = schedule_alloc
